@@ -3,6 +3,7 @@ import Percival.Proofs.CpuPaths
 import Percival.Proofs.CpuAesSpec
 import Percival.Proofs.CpuAesni
 import Percival.Proofs.AesStep
+import Percival.Proofs.MDAbsorb
 /-! Helper lemmas for the `exec_*` theorems of C03 (`pmodel cpu`): the L2 part of a `crc` line; the `aesblock` / `ctr`
 answers are `Spec.Aes` / `Spec.Ctr`, and the models of the routed C code paths agree with them. -/
 namespace Percival.Proofs.CpuStep
@@ -251,6 +252,64 @@ theorem niEnc_length (k : AesKey) (b : List UInt8) (hb : b.length = 16) : (niEnc
 
 theorem niEncB_length (k : AesKey) (b : List UInt8) (hb : b.length = 16) : (niEncB k b).length = 16 := by
   rw [niEncB_eq_spec k b hb]; exact Proofs.Aes.encryptBlock_length k.1 b k.2 hb
+
+/-! ## `sha`, `xform`, `insn` -/
+
+/-- the chaining value over a message that is a concatenation of 64-byte blocks is the fold of the compression function -/
+theorem absorb_flatten (p : MD.Params) : ∀ (bs : List (List UInt8)) (s : p.St), (∀ b ∈ bs, b.length = 64) →
+    MD.absorb p s bs.flatten = bs.foldl p.compress s
+  | [], s, _ => Proofs.MD.absorb_short p s [] (by simp)
+  | b :: bs, s, h => by
+    rw [List.flatten_cons, Proofs.MD.absorb_block p s b _ (h b (by simp)), List.foldl_cons]
+    exact absorb_flatten p bs _ (fun x hx => h x (by simp [hx]))
+
+theorem regsOfBytes_some (s : List UInt8) (h : s.length = 32) : ∃ r, regsOfBytes s = some r := by
+  match s, h with
+  | [a0, a1, a2, a3, a4, a5, a6, a7, a8, a9, a10, a11, a12, a13, a14, a15, a16, a17, a18, a19, a20, a21, a22, a23,
+     a24, a25, a26, a27, a28, a29, a30, a31], _ => exact ⟨_, rfl⟩
+
+/-- `AESENC` of the instruction model, on bytes, is one FIPS-197 round as `Spec.Aes` writes it -/
+theorem aesenc_bytes (a b : Model.CpuAesni.R) : (Model.CpuAesni.aesenc a b).bytes = Aes.round a.bytes b.bytes := by
+  rw [Proofs.CpuAesni.aesenc_eq, CpuAesSpec.round_bytes]
+
+theorem aesenclast_bytes (a b : Model.CpuAesni.R) :
+    (Model.CpuAesni.aesenclast a b).bytes = Aes.finalRound a.bytes b.bytes := by
+  rw [Proofs.CpuAesni.aesenclast_eq, CpuAesSpec.finalRound_bytes]
+
+/-- the two transcriptions of `AESKEYGENASSIST` (C03: lanes, C02: byte strings) agree -/
+theorem keygen_bytes (a : Model.CpuAesni.R) (imm : UInt8) :
+    (Model.CpuAesni.aeskeygenassist a imm).bytes = Model.AesNi.aeskeygenassist a.bytes imm := by
+  obtain ⟨⟨_, _, _, _⟩, ⟨_, _, _, _⟩, ⟨_, _, _, _⟩, ⟨_, _, _, _⟩⟩ := a
+  simp [Model.CpuAesni.aeskeygenassist, Model.AesNi.aeskeygenassist, Model.AesNi.dword, Model.CpuAesni.R.bytes,
+    Model.CpuAesni.W4.bytes, Model.CpuAesni.Fips.subWord, Model.CpuAesni.Fips.rotWord, Model.CpuAesni.W4.map,
+    Aes.subWord, Aes.rotWord, Model.AesNi.pxor, Aes.xorBytes, CpuAesSpec.sbox_eq, Proofs.CpuAesni.W4.xor_def]
+
+theorem stepOp_insn (cfg : Cfg) (i : Insn) : stepOp cfg (.insn (some i)) = .insn (insn i) := rfl
+
+/-- the `CRC32` instruction on a source of 1, 4 or 8 bytes: the byte step folded over the source in address order -/
+theorem insn_crc32 (a b c d : UInt8) (src : List UInt8) (h : src.length = 1 ∨ src.length = 4 ∨ src.length = 8) :
+    insn (.crc32 [a, b, c, d] src) = some (.word (src.foldl byteStep (Spec.le32 a b c d))) := by
+  rw [insn, if_pos h, ← crc32Insn_eq_fold]
+  rfl
+
+theorem ofBytes_of_bytes (r : Model.CpuAesni.R) : Model.CpuAesni.R.ofBytes r.bytes = some r := by
+  obtain ⟨⟨_, _, _, _⟩, ⟨_, _, _, _⟩, ⟨_, _, _, _⟩, ⟨_, _, _, _⟩⟩ := r
+  rfl
+
+theorem insn_aesenc (ra rb : Model.CpuAesni.R) :
+    insn (.aesenc ra.bytes rb.bytes) = some (.reg (Aes.round ra.bytes rb.bytes)) := by
+  rw [insn, ofBytes_of_bytes, ofBytes_of_bytes, ← aesenc_bytes]
+  rfl
+
+theorem insn_aesenclast (ra rb : Model.CpuAesni.R) :
+    insn (.aesenclast ra.bytes rb.bytes) = some (.reg (Aes.finalRound ra.bytes rb.bytes)) := by
+  rw [insn, ofBytes_of_bytes, ofBytes_of_bytes, ← aesenclast_bytes]
+  rfl
+
+theorem insn_keygen (ra : Model.CpuAesni.R) (imm : UInt8) :
+    insn (.keygen imm ra.bytes) = some (.reg (Model.AesNi.aeskeygenassist ra.bytes imm)) := by
+  rw [insn, ofBytes_of_bytes, ← keygen_bytes]
+  rfl
 
 end aes
 
